@@ -50,9 +50,10 @@ REAL_VS_STUB = {
                                 'warnings.showwarning', 'all user callbacks', 'GC timing'],
 }
 EXPECTED_PROBES = ('cb:is_leaf', 'cb:flatten_func', 'cb:unflatten_func', 'cb:map_fn', 'cb:key.__hash__', 'cb:key.__lt__',
-                   'cb:key.__eq__', 'cb:meta.__eq__', 'cb:meta.__repr__', 'cb:showwarning', 'cb:meta.__getattr__',
-                   'lock:registry:acquire', 'lock:registry:contended', 'switch-inside-callback',
-                   'callback-entered-with-engine-lock-held')
+                   'cb:meta.__ne__', 'cb:meta.__repr__', 'cb:showwarning', 'cb:meta.__getattr__',
+                   'lock:registry:acquire', 'lock:registry:contended', 'switch-inside-callback')
+# 'callback-entered-with-engine-lock-held' is reported as a counter; on a correct tree it stays 0 (it was 30 569 per
+# quick run before fix 414fcff)
 
 V = _C._verif if hasattr(_C, '_verif') else None
 TEMPLATES = ('T1', 'T2', 'T3', 'T4', 'T5', 'T6')
@@ -298,7 +299,10 @@ def tpl_T1(sim, tape, viol, keys, desc, cb, job, mixed=False):
         progs.append([READ_OPS[tape.draw(len(READ_OPS), 'opname')] for _ in range(1 + tape.draw(4, 'n-ops'))])
     solo = solo_refs(scn, [n for p in progs for n in p])
     reg_log = []
-    classes = REG_CLASSES if not mixed else REG_CLASSES[:4]
+    # a class created inside the run: its classification is not in the engine's type cache yet, so the metaclass
+    # attribute hooks (meta.__getattr__) run as callbacks during this run's registration
+    fresh = U.MetaHook('FreshTM', (tuple,), {})
+    classes = (REG_CLASSES + (fresh, fresh)) if not mixed else REG_CLASSES[:4] + (fresh,)
     rbody, plan = registrar_program(sim, tape, reg_log, classes, ('r1', 'r2'), 2 + tape.draw(5, 'n-reg-ops'))
     set_policy(sim, tape, job)
     results = []
@@ -349,7 +353,8 @@ def tpl_T6(sim, tape, viol, keys, desc, cb, job):
 
 # -------------------------------------------------------------------------------------------------- T2
 def tpl_T2(sim, tape, viol, keys, desc, cb, job):
-    cls = REG_CLASSES[tape.draw(len(REG_CLASSES), 'race-cls')]
+    pool = REG_CLASSES + (U.MetaHook('FreshTM', (tuple,), {}),)
+    cls = pool[tape.draw(len(pool), 'race-cls')]
     use_global = tape.draw(4, 'race-global') == 3
     ns = GLOBAL if use_global else 'race'
     flat_ns = '' if use_global else 'race'
@@ -416,7 +421,7 @@ def make_instance(cls):
         return cls(U.Leaf(1), U.Leaf(2))
     if cls is U.NT2:
         return cls(U.Leaf(1))
-    if cls is U.TM:
+    if cls is U.TM or type(cls) is U.MetaHook and issubclass(cls, tuple):
         return cls((U.Leaf(1), U.Leaf(2)))
     if cls is U.STRUCTSEQ_TYPES[0]:
         return U.make_structseq([U.Leaf(i) for i in range(9)])
